@@ -135,7 +135,7 @@ LIB = {
     "g": "(define g1 0) (define g2 10) (define gc1 (list 1 2 3))",
     "k": "(define k0 #f) (define kn 0)",
 }
-ERRORS = ["(car 5)", "nope", "(nope 1)", "(error \"boom\" 1 'x)", "((lambda (x) x))", "(5 5)", "(+ 'a 1)", "(cdr '())",
+ERRORS = ["(car 5)", "nope", "(nope 1)", "(error \"boom\" 1 'x)", "((lambda (x) x))", "(5 5)", "(car '())", "(cdr '())",
           "(error 'sym \"s\")", "((lambda (x y) x) 1)", "(set-car! 5 1)", "(apply car '(1 2))", "(eval '(if))"]
 SYNTAX_ERRORS = ["(if)", "(lambda)", "(let ((x)) x)", "(define)", "(set! 5 1)", "(quote)"]
 
@@ -257,7 +257,8 @@ class Gen:
         if k == 27:
             self.features.add("callcc-escape")
             self.use("find-first")
-            return "(find-first (lambda (x) (> x %s)) (list 1 5 9 %s))" % (self.lit(), self.int_(d1, vs))
+            # always found (1000 exceeds every literal): #f must not reach integer arithmetic
+            return "(find-first (lambda (x) (> x %s)) (list 1 5 9 %s 1000))" % (self.lit(), self.int_(d1, vs))
         if k == 28:
             self.features.add("callcc-escape")
             kk = self.fresh()
